@@ -33,7 +33,7 @@ IU = 'utils.iter_utils'
 
 
 def run(ctx: Ctx):
-  for r in (r1, r2, r3, r4, r6, r10, r11, r12, r13, r14, r15, r16):
+  for r in (r1, r2, r3, r4, r6, r10, r11, r12, r13, r14, r15, r16, r17):
     ctx.guard(r)
   from mlmverif.props import c04
   from mlmverif.props._queue import model as qmodel
@@ -872,10 +872,59 @@ def r16(ctx: Ctx):
   ctx.floor(rule, 1, n)
 
 
+def r17(ctx: Ctx):
+  rule = 'R-C13-17'
+  ctx.rule(rule, '"collects every generator\'s return value" — each ONCE, whatever the degree of parallelism: the workers of a stacked'
+           ' stream read their input through one shared lock-protected iterator, and the end of a QUEUE-backed input is'
+           ' `StopIteration(*returned)` at every call (a generator raises a bare StopIteration the second time). The sharing'
+           ' wrapper (_ThreadSafeIterator) therefore remembers the end: its __next__ has a StopIteration handler that sets a'
+           ' flag on self and re-raises, and the draw `next(self.<iterator>)` is reached only with that flag false — otherwise'
+           ' each of n workers ends with the same return values and the output records them n times')
+  ci = ctx.repo.cls('utils.iter_utils', '_ThreadSafeIterator')
+  fi = ci.methods.get('__next__')
+  if fi is None:
+    raise AnalysisError('_ThreadSafeIterator.__next__ not found')
+  g = cfgm.cfg_of(fi.node)
+  draws = [nd for nd in g.nodes if any(isinstance(c, ast.Call) and unparse(c.func) == 'next' and c.args and is_self_attr(c.args[0])
+                                       for c in cfgm.node_exprs(nd))]
+  if not draws:
+    raise AnalysisError(f'{rule}: _ThreadSafeIterator.__next__ no longer draws with next(self.<iterator>)')
+  flags = set()
+  for h in ast.walk(fi.node):
+    if isinstance(h, ast.ExceptHandler) and h.type is not None and 'StopIteration' in unparse(h.type):
+      sets = {t.attr for x in ast.walk(h) if isinstance(x, ast.Assign) and isinstance(x.value, ast.Constant) and x.value.value is True
+              for t in x.targets if is_self_attr(t)}
+      if sets and any(isinstance(x, ast.Raise) for x in ast.walk(h)):
+        flags |= sets
+  what = '_ThreadSafeIterator.__next__: the end of the shared input (and its return values) is relayed once'
+  ok = False
+  if flags:
+    tested = lambda nd: nd.kind == 'cond' and any(is_self_attr(y) and y.attr in flags for y in ast.walk(nd.ast))
+    ok = all(g.dominates(tested, d, cfgm.only_normal) is None for d in draws)
+  if ok:
+    ctx.ok(rule, fi, what, fi.node)
+  else:
+    ctx.fail(rule, fi, what,
+             '_ThreadSafeIterator.__next__ delegates every call to the shared iterator' + ('' if not flags else
+             f' without testing {sorted(flags)} first') + ': a queue-backed input raises StopIteration(*returned) for each of the n'
+             ' workers, so the output queue collects every return value n times (returned == [a, b, a, b, ...]) while one worker'
+             ' collects [a, b]', node=draws[0].ast or fi.node)
+  ctx.floor(rule, 1, 1)
+
+
 from mlmverif.selfcheck import B, OK  # noqa: E402
 
 _F = 'utils/iter_utils.py'
 VARIANTS = [
+    B('revert-shared-iterator-relays-the-end-to-every-worker', 'utils/iter_utils.py',
+      "      if self._exhausted:\n        raise StopIteration()\n      try:\n        return next(self._iterator)\n      except StopIteration:\n        # Only one of the threads sharing the iterator relays its return\n        # values, a queue raises them again at every call.\n        self._exhausted = True\n        raise\n",
+      "      return next(self._iterator)\n", 'R-C13-17'),
+    B('shared-iterator-flag-never-tested', 'utils/iter_utils.py',
+      "      if self._exhausted:\n        raise StopIteration()\n      try:", "      try:", 'R-C13-17'),
+    OK('shared-iterator-end-flag-renamed', 'utils/iter_utils.py',
+       "      if self._exhausted:\n        raise StopIteration()\n      try:\n        return next(self._iterator)\n      except StopIteration:\n        # Only one of the threads sharing the iterator relays its return\n        # values, a queue raises them again at every call.\n        self._exhausted = True\n        raise\n",
+       "      if self._done:\n        raise StopIteration()\n      try:\n        return next(self._iterator)\n      except StopIteration as end:\n        self._done = True\n        raise end\n",
+       extra=(('utils/iter_utils.py', "    self._exhausted = False\n\n  def __next__(self):\n    with self._lock:", "    self._done = False\n\n  def __next__(self):\n    with self._lock:"),)),
     B('revert-failed-setup-stops-the-feeders', 'utils/iter_utils.py',
       "  except BaseException:\n    # The threads feeding the input queue are already running: they would stay\n    # blocked on the full queue for good, the caller cannot stop them.\n    if isinstance(input_iterable, IteratorQueue):\n      input_iterable.maybe_stop()\n    raise\n",
       "  except BaseException:\n    raise\n", 'R-C13-16'),
@@ -942,14 +991,15 @@ VARIANTS = [
        '    if len(self._source_iterators) > 1:\n      iterators = self._source_iterators',
        '    if not len(self._source_iterators) <= 1:\n      iterators = self._source_iterators'),
     B('iter-returns-raw-iterator', _F,
-      '      return next(self._iterator)\n\n  def __iter__(self):\n    return self\n',
-      '      return next(self._iterator)\n\n  def __iter__(self):\n    return self._iterator\n',
+      '        self._exhausted = True\n        raise\n\n  def __iter__(self):\n    return self\n',
+      '        self._exhausted = True\n        raise\n\n  def __iter__(self):\n    return self._iterator\n',
       'R-C13-1'),
     B('no-threadsafe-wrapper', _F,
       '  if input_iterable is not None:\n    input_iterable = _ThreadSafeIterator(input_iterable)\n',
       '', 'R-C13-1'),
     B('threadsafe-next-unlocked', _F,
-      '    with self._lock:\n      return next(self._iterator)', '    return next(self._iterator)',
+      '    with self._lock:\n      if self._exhausted:\n        raise StopIteration()\n      try:\n        return next(self._iterator)\n      except StopIteration:\n        # Only one of the threads sharing the iterator relays its return\n        # values, a queue raises them again at every call.\n        self._exhausted = True\n        raise',
+      '    if self._exhausted:\n      raise StopIteration()\n    try:\n      return next(self._iterator)\n    except StopIteration:\n      self._exhausted = True\n      raise',
       'R-C13-1'),
     B('max-enqueuer-off', _F, '      max_enqueuer=len(input_iterators),\n',
       '      max_enqueuer=len(input_iterators) - 1,\n', 'R-C13-2'),
